@@ -180,11 +180,17 @@ pub fn scan<V: Vary>(
     // dv/dy for the right edge
     let dr_dy = r0.dv_dt(r1, recip_dy);
 
-    // dv/dx is constant for the whole polygon; precompute it
+    // dv/dx is constant for the whole polygon; precompute it from the wider
+    // of the two bases. (Extrapolating the edges one row down instead gives
+    // a vanishing span, and an infinite or NaN gradient, if they meet there.)
     let dv_dx = {
-        let (l0, r0) = (l0.step(&dl_dy), r0.step(&dr_dy));
-        let dx = r0.0.x() - l0.0.x();
-        l0.dv_dt(&r0, dx.recip())
+        let dx0 = r0.0.x() - l0.0.x();
+        let dx1 = r1.0.x() - l1.0.x();
+        if dx1 * dx1 > dx0 * dx0 {
+            l1.dv_dt(r1, dx1.recip())
+        } else {
+            l0.dv_dt(r0, dx0.recip())
+        }
     };
 
     // Find the y value of the next pixel center (.5) vertically
